@@ -86,6 +86,60 @@ CLAIMED["C14"] = dict(
     technique="Coq proof (generic frame theorem over status reachability) + vm_compute correspondence (K-life)",
     design_ref="DESIGN.md section 5 C14")
 
+CLAIMED["C08"] = dict(
+    category="proof",
+    text="Timer bookkeeping model (Exec.arm / cancel / deliver over a pending list with a virtual clock). Theorems for ALL states: entering arms one "
+         "timer per `after` transition, due at now+delay, owned by the entered state (C08_armed_at_entry); leaving removes every timer owned by the state "
+         "and nothing else (C08_exit_cancels); on the sync engine an expiry whose owner is no longer active delivers nothing "
+         "(C08_sync_rechecks_owner); an expiry only appends to the queue and fires at most once (C08_expiry_only_queues, C08_at_most_once); stop leaves nothing armed (C08_stop_silences). The statement 'an expiry of an earlier activation has no effect' is refuted for the "
+         "async engine with a kernel-checked witness (C08_stale_refuted = recorded finding F8: after-events are matched by type only). Tied to the "
+         "code by K-macro on a virtual clock (asyncio loop and threading.Timer replaced by deterministic virtual-time schedulers) with timed ops, "
+         "re-entry before expiry, slow actions overlapping expiries; wall-clock accuracy of real timers is outside the model.",
+    technique="Coq proof over executable timer-bookkeeping model + vm_compute correspondence on a virtual clock",
+    design_ref="DESIGN.md section 5 C08")
+CLAIMED["C09"] = dict(
+    category="proof",
+    text="Service bookkeeping in the same pending-list model: entering starts one task per invoke owned by the entered state, leaving cancels them "
+         "(shared theorems with C08), a completion delivers done.invoke.<id> with the service's value or error.platform.<id>, an unhandled failure "
+         "fails the machine (C09_one_outcome, C09_unhandled_error_status, C09_handled_error_keeps_running, C09_missing_service_is_fatal). 'A completion from an earlier activation is ignored' is refuted "
+         "with a kernel-checked witness (C09_current_activation_only_refuted = finding F9); tasks leaked by a rolled-back entry are finding F19. "
+         "Tied to the code by K-macro with scripted services (duration, outcome, value) on the virtual clock, both engines; real coroutine "
+         "scheduling / thread pools are outside the model.",
+    technique="Coq proof over executable service-bookkeeping model + vm_compute correspondence on a virtual clock",
+    design_ref="DESIGN.md section 5 C09")
+CLAIMED["C11"] = dict(
+    category="proof",
+    text="For ALL machines and states: what is recorded when states are exited is, for every history-owning state on their ancestor chains with active "
+         "proper descendants, exactly those descendants in (depth, id) order, and nothing else changes (C11_record_is_last_exit); a never-visited "
+         "history target expands to its default target / the parent's initial child / the parallel parent itself; a visited deep target to the "
+         "remembered leaves, a shallow one to the remembered children; a snapshot round trip keeps the history. Partial: that ENTERING the expansion "
+         "re-creates the remembered sub-configuration rests on the entry procedure, which is tied by correspondence only. Tied to the code by K-macro "
+         "on history machines (shallow/deep x compound/parallel parents x nested x defaults x never/once/repeatedly visited) and an independent "
+         "restore oracle in the monitor.",
+    technique="Coq proof over executable history model + vm_compute correspondence",
+    design_ref="DESIGN.md section 5 C11")
+CLAIMED["C12"] = dict(
+    category="proof",
+    text="For ALL machines with distinct state ids and ALL ancestor-closed states: restore(persist s) succeeds and returns the same configuration as a "
+         "set, and the same history, context, status and output, with empty queue / timers / log (C12_restore_is_faithful); selection, exit order, "
+         "history recording and reported configuration of the restored state equal those of the original (C12_restored_behaves_alike, via the C16 "
+         "order-independence theorems); persist(restore(persist s)) = persist s (C12_resnapshot); a snapshot is rejected iff it names a state the "
+         "machine lacks. Partial: equality of whole continuations is checked by correspondence (every cut point k of random runs, restored vs "
+         "uninterrupted, K-snap), not proved; JSON validity, isolation from later execution and corrupt-stream rejection are runtime monitors; child "
+         "actors are outside Snap.v.",
+    technique="Coq proof (sorting canonical under permutation; restore/persist round trip) + vm_compute correspondence (K-snap) + restore-vs-uninterrupted runs",
+    design_ref="DESIGN.md section 5 C12")
+CLAIMED["C16"] = dict(
+    category="proof",
+    text="Oracle independence, for ALL machines with distinct state ids and ALL listings of the same active set: the selected transitions and their "
+         "order, can(), the exit order, what history remembers (hence restored entry order), guard values and the reported configuration do not "
+         "depend on the iteration order of the active set, because each is a membership test or a sort with a strict total order "
+         "(C16_sort_canonical and its instances). The model being a function, equal inputs give equal traces. Tied to the code by K-macro and by "
+         "re-running the implementation in subprocesses under different PYTHONHASHSEED values / heap layouts / both engines with byte-for-byte trace "
+         "comparison. Generated identifiers and actor ids are only covered by the subprocess comparison.",
+    technique="Coq proof (permutation invariance via canonical sorting) + vm_compute correspondence + hash-seed subprocess differential",
+    design_ref="DESIGN.md section 5 C16")
+
 PENDING_REASON = "not claimed yet: the check for this property is still being built in this round (DESIGN.md section 5 has the plan)"
 
 
